@@ -125,6 +125,8 @@ ReqCsrParse(a, out, o) ==
     <<"C06.accept_implies_alg_fits_key", o.alg \in AlgNames /\ Fits(a.indep.keyType, o.alg)>>,
     <<"C06.accepted_key_is_embedded_key", a.req.k = "ok" => o.keyRaw = a.req.keyRaw>>,
     <<"C06.unsupported_request_rejected", a.req.k = "ok" => Carriable(a.req)>>,
+    (* a subject value that is not a value of the string type its tag names cannot be "carried over unchanged" *)
+    <<"C06.malformed_subject_string_rejected", "malformedSubjectString" \in DOMAIN a.req => ~a.req.malformedSubjectString>>,
     <<"C06.accepted_content_eq_requested", a.req.k = "ok" =>
         /\ o.subject = a.req.subject
         /\ o.sans = a.req.sans
